@@ -546,7 +546,7 @@ class Pile(Widget, WidgetContainerMixin, WidgetContainerListContentsMixin):
         position -- index of child widget to be made focus
         """
         try:
-            if position < 0 or position >= len(self.contents):
+            if not isinstance(position, int) or position < 0 or position >= len(self.contents):
                 raise IndexError(f"No Pile child widget at position {position}")
         except TypeError as exc:
             raise IndexError(f"No Pile child widget at position {position}").with_traceback(exc.__traceback__) from exc
